@@ -436,6 +436,7 @@ fn random_index(rng: &mut Rng, d: Dialect, in_table: bool) -> Ix {
         nulls_not_distinct: d == Dialect::Postgres && rng.chance(1, 5),
         if_not_exists: d == Dialect::Postgres && !in_table && rng.coin(),
         filter: if d == Dialect::Postgres && !in_table && rng.chance(1, 3) { Some(("c0".into(), rng.range(0, 9))) } else { None },
+        filter_more: if d == Dialect::Postgres && !in_table { (0..rng.pick_weighted(&[3, 2, 1])).map(|_| rng.range(10, 19)).collect() } else { vec![] },
     }
 }
 
